@@ -871,7 +871,8 @@ func (tf *transformer) transformCompile(args []string) ([]string, error) {
 			newPaths = append(newPaths, path)
 		}
 		if flagDebugDir != "" {
-			debugArtifacts.GarbledFiles[basename] = src
+			// src points into a buffer which printFile reuses for the next file.
+			debugArtifacts.GarbledFiles[basename] = bytes.Clone(src)
 		}
 	}
 	if tf.curPkg.ImportPath == "runtime" && flagTiny {
